@@ -9,7 +9,7 @@
         open spec fn progresses() -> bool { false }
         open spec fn self_delimiting() -> bool { false }
         open spec fn dec_rel(b: Seq<u8>, v: &Subs, k: int) -> bool { true }
-        open spec fn dec_total() -> bool { false }
+        open spec fn dec_total(b: Seq<u8>) -> bool { false }
         /// the tag loop stops only at the end of the input, in front of something that is no tag, or in front of a tag that
         /// is not one of this struct's non-repeatable fields
         open spec fn dec_stop(rest: Seq<u8>) -> bool { rest.len() == 0 || (match <zvt_builder::encoding::Default as zvt_builder::encoding::Encoding<zvt_builder::Tag>>::spec_dec(rest) { None => true, Some((t, _)) => t.0 != 65u16 && t.0 != 67u16 }) }
@@ -80,7 +80,7 @@
         open spec fn progresses() -> bool { false }
         open spec fn self_delimiting() -> bool { false }
         open spec fn dec_rel(b: Seq<u8>, v: &SubsOnCard, k: int) -> bool { true }
-        open spec fn dec_total() -> bool { false }
+        open spec fn dec_total(b: Seq<u8>) -> bool { false }
         /// the tag loop stops only at the end of the input, in front of something that is no tag, or in front of a tag that
         /// is not one of this struct's non-repeatable fields
         open spec fn dec_stop(rest: Seq<u8>) -> bool { rest.len() == 0 || (match <zvt_builder::encoding::Default as zvt_builder::encoding::Encoding<zvt_builder::Tag>>::spec_dec(rest) { None => true, Some((t, _)) => true }) }
@@ -149,7 +149,7 @@
         open spec fn progresses() -> bool { false }
         open spec fn self_delimiting() -> bool { false }
         open spec fn dec_rel(b: Seq<u8>, v: &StatusInformation, k: int) -> bool { true }
-        open spec fn dec_total() -> bool { false }
+        open spec fn dec_total(b: Seq<u8>) -> bool { false }
         /// the tag loop stops only at the end of the input, in front of something that is no tag, or in front of a tag that
         /// is not one of this struct's non-repeatable fields
         open spec fn dec_stop(rest: Seq<u8>) -> bool { rest.len() == 0 || (match <zvt_builder::encoding::Default as zvt_builder::encoding::Encoding<zvt_builder::Tag>>::spec_dec(rest) { None => true, Some((t, _)) => t.0 != 76u16 && t.0 != 7947u16 && t.0 != 7956u16 && t.0 != 8005u16 && t.0 != 8012u16 && t.0 != 8013u16 && t.0 != 8015u16 && t.0 != 8016u16 && t.0 != 98u16 }) }
@@ -272,7 +272,7 @@
         open spec fn progresses() -> bool { false }
         open spec fn self_delimiting() -> bool { false }
         open spec fn dec_rel(b: Seq<u8>, v: &StatusEnquiry, k: int) -> bool { true }
-        open spec fn dec_total() -> bool { false }
+        open spec fn dec_total(b: Seq<u8>) -> bool { false }
         /// the tag loop stops only at the end of the input, in front of something that is no tag, or in front of a tag that
         /// is not one of this struct's non-repeatable fields
         open spec fn dec_stop(rest: Seq<u8>) -> bool { rest.len() == 0 || (match <zvt_builder::encoding::Default as zvt_builder::encoding::Encoding<zvt_builder::Tag>>::spec_dec(rest) { None => true, Some((t, _)) => t.0 != 8178u16 }) }
@@ -337,7 +337,7 @@
         open spec fn progresses() -> bool { false }
         open spec fn self_delimiting() -> bool { false }
         open spec fn dec_rel(b: Seq<u8>, v: &DeviceInformation, k: int) -> bool { true }
-        open spec fn dec_total() -> bool { false }
+        open spec fn dec_total(b: Seq<u8>) -> bool { false }
         /// the tag loop stops only at the end of the input, in front of something that is no tag, or in front of a tag that
         /// is not one of this struct's non-repeatable fields
         open spec fn dec_stop(rest: Seq<u8>) -> bool { rest.len() == 0 || (match <zvt_builder::encoding::Default as zvt_builder::encoding::Encoding<zvt_builder::Tag>>::spec_dec(rest) { None => true, Some((t, _)) => t.0 != 8000u16 && t.0 != 8001u16 && t.0 != 8002u16 && t.0 != 8003u16 }) }
@@ -420,7 +420,7 @@
         open spec fn progresses() -> bool { false }
         open spec fn self_delimiting() -> bool { false }
         open spec fn dec_rel(b: Seq<u8>, v: &ReceiptPrintoutCompletion, k: int) -> bool { true }
-        open spec fn dec_total() -> bool { false }
+        open spec fn dec_total(b: Seq<u8>) -> bool { false }
         /// the tag loop stops only at the end of the input, in front of something that is no tag, or in front of a tag that
         /// is not one of this struct's non-repeatable fields
         open spec fn dec_stop(rest: Seq<u8>) -> bool { rest.len() == 0 || (match <zvt_builder::encoding::Default as zvt_builder::encoding::Encoding<zvt_builder::Tag>>::spec_dec(rest) { None => true, Some((t, _)) => t.0 != 8004u16 && t.0 != 228u16 && t.0 != 52u16 }) }
@@ -497,7 +497,7 @@
         open spec fn progresses() -> bool { false }
         open spec fn self_delimiting() -> bool { false }
         open spec fn dec_rel(b: Seq<u8>, v: &ReservationAbort, k: int) -> bool { true }
-        open spec fn dec_total() -> bool { false }
+        open spec fn dec_total(b: Seq<u8>) -> bool { false }
         /// the tag loop stops only at the end of the input, in front of something that is no tag, or in front of a tag that
         /// is not one of this struct's non-repeatable fields
         open spec fn dec_stop(rest: Seq<u8>) -> bool { rest.len() == 0 || (match <zvt_builder::encoding::Default as zvt_builder::encoding::Encoding<zvt_builder::Tag>>::spec_dec(rest) { None => true, Some((t, _)) => t.0 != 7958u16 && t.0 != 7959u16 }) }
@@ -568,7 +568,7 @@
         open spec fn progresses() -> bool { false }
         open spec fn self_delimiting() -> bool { false }
         open spec fn dec_rel(b: Seq<u8>, v: &Bmp60, k: int) -> bool { true }
-        open spec fn dec_total() -> bool { false }
+        open spec fn dec_total(b: Seq<u8>) -> bool { false }
         /// the tag loop stops only at the end of the input, in front of something that is no tag, or in front of a tag that
         /// is not one of this struct's non-repeatable fields
         open spec fn dec_stop(rest: Seq<u8>) -> bool { rest.len() == 0 || (match <zvt_builder::encoding::Default as zvt_builder::encoding::Encoding<zvt_builder::Tag>>::spec_dec(rest) { None => true, Some((t, _)) => t.0 != 8034u16 && t.0 != 8035u16 }) }
@@ -639,7 +639,7 @@
         open spec fn progresses() -> bool { false }
         open spec fn self_delimiting() -> bool { false }
         open spec fn dec_rel(b: Seq<u8>, v: &AuthData, k: int) -> bool { true }
-        open spec fn dec_total() -> bool { false }
+        open spec fn dec_total(b: Seq<u8>) -> bool { false }
         /// the tag loop stops only at the end of the input, in front of something that is no tag, or in front of a tag that
         /// is not one of this struct's non-repeatable fields
         open spec fn dec_stop(rest: Seq<u8>) -> bool { rest.len() == 0 || (match <zvt_builder::encoding::Default as zvt_builder::encoding::Encoding<zvt_builder::Tag>>::spec_dec(rest) { None => true, Some((t, _)) => t.0 != 233u16 }) }
@@ -704,7 +704,7 @@
         open spec fn progresses() -> bool { false }
         open spec fn self_delimiting() -> bool { false }
         open spec fn dec_rel(b: Seq<u8>, v: &PreAuthData, k: int) -> bool { true }
-        open spec fn dec_total() -> bool { false }
+        open spec fn dec_total(b: Seq<u8>) -> bool { false }
         /// the tag loop stops only at the end of the input, in front of something that is no tag, or in front of a tag that
         /// is not one of this struct's non-repeatable fields
         open spec fn dec_stop(rest: Seq<u8>) -> bool { rest.len() == 0 || (match <zvt_builder::encoding::Default as zvt_builder::encoding::Encoding<zvt_builder::Tag>>::spec_dec(rest) { None => true, Some((t, _)) => t.0 != 233u16 }) }
@@ -769,7 +769,7 @@
         open spec fn progresses() -> bool { false }
         open spec fn self_delimiting() -> bool { false }
         open spec fn dec_rel(b: Seq<u8>, v: &Diagnosis, k: int) -> bool { true }
-        open spec fn dec_total() -> bool { false }
+        open spec fn dec_total(b: Seq<u8>) -> bool { false }
         /// the tag loop stops only at the end of the input, in front of something that is no tag, or in front of a tag that
         /// is not one of this struct's non-repeatable fields
         open spec fn dec_stop(rest: Seq<u8>) -> bool { rest.len() == 0 || (match <zvt_builder::encoding::Default as zvt_builder::encoding::Encoding<zvt_builder::Tag>>::spec_dec(rest) { None => true, Some((t, _)) => t.0 != 27u16 }) }
@@ -834,7 +834,7 @@
         open spec fn progresses() -> bool { false }
         open spec fn self_delimiting() -> bool { false }
         open spec fn dec_rel(b: Seq<u8>, v: &ReadCard, k: int) -> bool { true }
-        open spec fn dec_total() -> bool { false }
+        open spec fn dec_total(b: Seq<u8>) -> bool { false }
         /// the tag loop stops only at the end of the input, in front of something that is no tag, or in front of a tag that
         /// is not one of this struct's non-repeatable fields
         open spec fn dec_stop(rest: Seq<u8>) -> bool { rest.len() == 0 || (match <zvt_builder::encoding::Default as zvt_builder::encoding::Encoding<zvt_builder::Tag>>::spec_dec(rest) { None => true, Some((t, _)) => t.0 != 7957u16 && t.0 != 8032u16 }) }
@@ -905,7 +905,7 @@
         open spec fn progresses() -> bool { false }
         open spec fn self_delimiting() -> bool { false }
         open spec fn dec_rel(b: Seq<u8>, v: &ZvtString, k: int) -> bool { true }
-        open spec fn dec_total() -> bool { false }
+        open spec fn dec_total(b: Seq<u8>) -> bool { false }
         /// the tag loop stops only at the end of the input, in front of something that is no tag, or in front of a tag that
         /// is not one of this struct's non-repeatable fields
         open spec fn dec_stop(rest: Seq<u8>) -> bool { rest.len() == 0 || (match <zvt_builder::encoding::Default as zvt_builder::encoding::Encoding<zvt_builder::Tag>>::spec_dec(rest) { None => true, Some((t, _)) => t.0 != 7u16 }) }
@@ -970,7 +970,7 @@
         open spec fn progresses() -> bool { false }
         open spec fn self_delimiting() -> bool { false }
         open spec fn dec_rel(b: Seq<u8>, v: &TextLines, k: int) -> bool { true }
-        open spec fn dec_total() -> bool { false }
+        open spec fn dec_total(b: Seq<u8>) -> bool { false }
         /// the tag loop stops only at the end of the input, in front of something that is no tag, or in front of a tag that
         /// is not one of this struct's non-repeatable fields
         open spec fn dec_stop(rest: Seq<u8>) -> bool { rest.len() == 0 || (match <zvt_builder::encoding::Default as zvt_builder::encoding::Encoding<zvt_builder::Tag>>::spec_dec(rest) { None => true, Some((t, _)) => t.0 != 9u16 }) }
@@ -1045,7 +1045,7 @@
         open spec fn progresses() -> bool { false }
         open spec fn self_delimiting() -> bool { false }
         open spec fn dec_rel(b: Seq<u8>, v: &PrintTextBlock, k: int) -> bool { true }
-        open spec fn dec_total() -> bool { false }
+        open spec fn dec_total(b: Seq<u8>) -> bool { false }
         /// the tag loop stops only at the end of the input, in front of something that is no tag, or in front of a tag that
         /// is not one of this struct's non-repeatable fields
         open spec fn dec_stop(rest: Seq<u8>) -> bool { rest.len() == 0 || (match <zvt_builder::encoding::Default as zvt_builder::encoding::Encoding<zvt_builder::Tag>>::spec_dec(rest) { None => true, Some((t, _)) => t.0 != 7943u16 && t.0 != 37u16 }) }
@@ -1116,7 +1116,7 @@
         open spec fn progresses() -> bool { false }
         open spec fn self_delimiting() -> bool { false }
         open spec fn dec_rel(b: Seq<u8>, v: &Registration, k: int) -> bool { true }
-        open spec fn dec_total() -> bool { false }
+        open spec fn dec_total(b: Seq<u8>) -> bool { false }
         /// the tag loop stops only at the end of the input, in front of something that is no tag, or in front of a tag that
         /// is not one of this struct's non-repeatable fields
         open spec fn dec_stop(rest: Seq<u8>) -> bool { rest.len() == 0 || (match <zvt_builder::encoding::Default as zvt_builder::encoding::Encoding<zvt_builder::Tag>>::spec_dec(rest) { None => true, Some((t, _)) => t.0 != 26u16 }) }
